@@ -15,15 +15,24 @@ COMMON_TB = [
 
 PROPS = {
     "C04": {
+        "design_ref": "6.2/C04",
+        "technique": "Lean 4 refinement proof (slot-level model of RingBuffer.h refines a bounded deque, per operation and by induction over every history) + three-way differential correspondence model/oracle/real code",
+        "level_text": "Machine-checked proof: every valid operation of the transcribed model (all members incl. the three resize layouts, copy/move/assign, iteration) succeeds, returns the bounded deque's answer and preserves the representation invariant, for every capacity, head position, overwrite mode and element type; lifted by induction to every finite history over several objects. The model is tied to the header in /repo on every run by running model, a Python bounded-deque oracle and the real RingBuffer<Tracked/long> on the same generated histories (every reachable layout x every op, exhaustive short words, seeded random).",
+        "level_note": "Trusted: Lean kernel; hand transcription of RingBuffer.h (checked by the correspondence run, not proved); malloc/realloc/memcpy modelled as slot relocation (sound only for bitwise-relocatable T, the property's own restriction); unbounded Nat (no size_t overflow, no allocation failure); signed modCap related to the Nat index arithmetic by C04_modCap_signed.",
         "lean_modules": ["Tulz.Props.C04"],
-        "theorems": ["Tulz.C04_op_refines", "Tulz.C04_history", "Tulz.C04_resize_keeps_front",
+        "theorems": ["Tulz.C04_op_refines", "Tulz.C04_history", "Tulz.C04_history_from_empty", "Tulz.C04_resize_keeps_front",
                      "Tulz.C04_push_full_discards_opposite", "Tulz.C04_modCap_signed"],
         "trusted_base": COMMON_TB,
         "assumptions": ["element type is bitwise relocatable (the property's own restriction)", "capacity >= 1 except for moved-from objects"],
     },
     "C09": {
+        "design_ref": "6.2/C09",
+        "technique": "Lean 4 invariant proof over the slot-level memory model (every destructor/placement-new/assignment is a partial primitive that fails when wrong; live values = deque contents as multisets) + differential lifetime tracking on the real code under ASan",
+        "level_text": "Machine-checked proof that no operation of any valid history fails on the slot model (no out-of-allocation access, no destructor on storage without an object, no construction over a live element) and that after every operation the multiset of live values in all blocks equals the bounded deques' contents (so exactly the logically removed elements were destroyed, once each, and none is abandoned); destructor leaves no live value. Tied to /repo by comparing, per operation, the net change of live Tracked values and the end-of-scope live set of the real RingBuffer with model and oracle, under ASan/UBSan.",
+        "level_note": "Trusted: Lean kernel; transcription of RingBuffer.h into Mem primitives; C++ lifetime rules as encoded in Mem.lean; moved-from shells are tolerated and not compared; element constructors do not throw.",
         "lean_modules": ["Tulz.Props.C09"],
-        "theorems": ["Tulz.C09_no_bad_access", "Tulz.C09_live_exactly_contents", "Tulz.C09_history_live", "Tulz.C09_drop_destroys_all"],
+        "theorems": ["Tulz.C09_no_bad_access", "Tulz.C09_live_exactly_contents", "Tulz.C09_history_live", "Tulz.C09_drop_destroys_all",
+                     "Tulz.C09_resize_destroys_tail"],
         "trusted_base": COMMON_TB,
         "assumptions": ["element type is bitwise relocatable", "moved-from shells left by pop are tolerated (not compared)"],
     },
@@ -409,6 +418,9 @@ def run_tie(prop, spec, tier, seed):
     def check(kind_impl, outs, which):
         nfail = 0
         for ci, (c, e, o) in enumerate(zip(cases, exp, outs)):
+            if o == ["!SKIPPED"]:
+                res.extra["skipped_after_crashes"] = res.extra.get("skipped_after_crashes", 0) + 1
+                continue
             pe = [project(prop if which != "long" else "C04", x) for x in e]
             po = [project(prop if which != "long" else "C04", x) for x in o]
             d = seqtie.first_diff(pe, po)
